@@ -156,6 +156,9 @@ def axis_values(n: int, kind: str, origin: float) -> np.ndarray:
         # decimal fractions that are not binary fractions, on an axis that crosses zero off-centre (-0.05 | 0.25 | ...):
         # sums and halves of neighbouring values round
         values = np.array([origin - int(origin) - 0.05 + 0.3 * k for k in range(n)]) + int(origin)
+    elif kind == 'int8':
+        # whole degrees in the narrowest integer type, at values whose sums do not fit the type
+        return (60 + 10 * np.arange(n)).astype('int8') if n <= 6 else (int(origin) + np.arange(n)).astype('int16')
     elif kind in ('int', 'intdesc'):
         # whole-degree coordinates stored as integers (midpoints fall on x.5)
         values = (int(origin) + np.arange(n)).astype('int32')
@@ -664,6 +667,10 @@ def mesh_library(name: str):
     if name == 'M10':
         nodes, faces = mesh_library('M4')
         return nodes + [(1.0, 0.5), (0.25, 1.5)], faces
+    if name == 'M12':
+        # M4 plus nodes that belong to no face and lie far outside every face
+        nodes, faces = mesh_library('M4')
+        return nodes + [(50.0, 50.0), (-7.0, 0.5)], faces
     if name == 'M9':
         # M7 with the winding of every other face reversed (clockwise faces are legal polygons)
         nodes, faces = _lattice_mesh(3, 4)
@@ -794,6 +801,8 @@ def build_ugrid(spec: dict) -> tuple[xr.Dataset, Truth]:
                                          dtype=spec.get('conn_dtype', 'int32'))
         if base == 0 and spec.get('omit_zero_start_index'):
             attrs.pop('start_index')
+        if spec.get('start_index_as') == 'float' and 'start_index' in attrs:
+            attrs['start_index'] = float(attrs['start_index'])      # written as a double by some tools
         attrs = {'cf_role': role, 'long_name': role, **attrs}
         dims = [primary_dim, other_dim]
         if transposed:
@@ -806,11 +815,12 @@ def build_ugrid(spec: dict) -> tuple[xr.Dataset, Truth]:
     if 'edge_node' in supplied:
         add_table('Mesh2_edge_nodes', 'edge_node_connectivity', tables['edge_node'], EDGE_DIM, 2, spec.get('two_dim', TWO_DIM))
     if 'face_edge' in supplied:
-        add_table('Mesh2_face_edges', 'face_edge_connectivity', tables['face_edge'], FACE_DIM, width, MAXN_DIM)
+        # (the padding dimension of this table may have a name of its own: nothing ties it to the face-node one)
+        add_table('Mesh2_face_edges', 'face_edge_connectivity', tables['face_edge'], FACE_DIM, width, spec.get('face_edge_dim', MAXN_DIM))
     if 'edge_face' in supplied:
         add_table('Mesh2_edge_faces', 'edge_face_connectivity', tables['edge_face'], EDGE_DIM, 2, spec.get('two_dim', TWO_DIM))
     if 'face_face' in supplied:
-        add_table('Mesh2_face_links', 'face_face_connectivity', tables['face_face'], FACE_DIM, width, MAXN_DIM)
+        add_table('Mesh2_face_links', 'face_face_connectivity', tables['face_face'], FACE_DIM, width, spec.get('face_face_dim', MAXN_DIM))
 
     if transposed or spec.get('face_dimension_attr', True):
         mesh_attrs['face_dimension'] = FACE_DIM
@@ -832,7 +842,8 @@ def build_ugrid(spec: dict) -> tuple[xr.Dataset, Truth]:
             variables['Mesh2_face_x'].attrs['bounds'] = 'Mesh2_face_xbnds'
             variables['Mesh2_face_y'].attrs['bounds'] = 'Mesh2_face_ybnds'
 
-    variables['Mesh2'] = xr.DataArray(np.int32(0), name='Mesh2', attrs=mesh_attrs)
+    if spec.get('second_mesh') != 'first':
+        variables['Mesh2'] = xr.DataArray(np.int32(0), name='Mesh2', attrs=mesh_attrs)
     if spec.get('second_mesh'):
         # an unrelated one-dimensional network in the same file
         variables['Mesh1_edge_nodes'] = xr.DataArray(np.array([[0, 1], [1, 2]], dtype='int32'), dims=['nMesh1_edge', 'Two'],
@@ -840,6 +851,9 @@ def build_ugrid(spec: dict) -> tuple[xr.Dataset, Truth]:
         variables['Mesh1'] = xr.DataArray(np.int32(0), name='Mesh1', attrs={
             'cf_role': 'mesh_topology', 'topology_dimension': 1, 'node_coordinates': 'Mesh2_node_x Mesh2_node_y',
             'edge_node_connectivity': 'Mesh1_edge_nodes'})
+    if spec.get('second_mesh') == 'first':
+        # ... listed before the two-dimensional mesh (1D2D model output: mesh1d, then mesh2d)
+        variables['Mesh2'] = xr.DataArray(np.int32(0), name='Mesh2', attrs=mesh_attrs)
 
     kinds = {'face': {'dims': (FACE_DIM,), 'shape': (nface,)}, 'node': {'dims': (NODE_DIM,), 'shape': (nnode,)}}
     sizes = {FACE_DIM: nface, NODE_DIM: nnode, 'record': nt, 'Mesh2_layers': nk}
@@ -1210,6 +1224,7 @@ def family_specs(tier: str, *, holes: bool = True, big: bool = True) -> list[dic
                   'start_index_by_table': {'face_face': 0, 'edge_node': 0}, 'omit_zero_start_index': True})
     specs.append({'family': 'ugrid', 'mesh': 'M7', 'supplied': ['edge_node', 'edge_face'], 'edge_face_missing_first': True, 'fill': 'fillattr'})
     specs.append({'family': 'ugrid', 'mesh': 'M4', 'second_mesh': True})
+    specs.append({'family': 'ugrid', 'mesh': 'M4', 'second_mesh': 'first', 'supplied': ['edge_node']})
     specs.append({'family': 'ugrid', 'mesh': 'M1', 'supplied': ['edge_node', 'edge_face'], 'two_dim': 'nv', 'start_index': 1})
     # column-major arrays, coordinates listing their dimensions in different orders, ragged node masks
     specs.append({'family': 'shoc_standard', 'nj': 3, 'ni': 3, 'fortran': True, 'dry': 'farcorner'})
